@@ -108,7 +108,7 @@ func (c *Ctx) role(name string) *ssa.Function {
 	case "newick.nextToken":
 		return c.calleeBySig(c.role("newick.read"), "(*formats/newick.reader)()(string,error)", 0)
 	case "newick.writer":
-		return c.calleeBySig(c.fn("formats/newick", "(*Node).MarshalText"), "(*formats/newick.Node)(*bytes.Buffer)()", 0)
+		return c.calleeBySig(c.fn("formats/newick", "(*Node).MarshalText"), "(*formats/newick.Node)(*bytes.Buffer)()", 1)
 	case "newick.nameToText":
 		return c.calleeBySig(c.role("newick.writer"), "(string)(string)", 0)
 	case "newick.nameFromText":
